@@ -131,42 +131,46 @@ func runTrial(k *vf.Case) {
 		m := otel.Meter(meterName(gr.Intn(nMeters)))
 		kind := gr.Intn(8)
 		id := newID()
-		name := fmt.Sprintf("%s_%d", kindNames[kind], gr.Intn(40))
+		num := gr.Intn(40)
+		name := fmt.Sprintf("%s_%d", kindNames[kind], num)
+		// unit and description are a function of the name: asking for the same instrument again is asking for
+		// the identical instrument, options included
+		unit, desc := []string{"", "ms", "By"}[num%3], []string{"", "some description"}[num%2]
 		h := syncHandle{id: id, kind: kind, name: name}
 		switch kind {
 		case 0:
-			c, _ := m.Int64Counter(name)
+			c, _ := m.Int64Counter(name, metric.WithUnit(unit), metric.WithDescription(desc))
 			h.rec = func(ctx context.Context, v int64, o metric.MeasurementOption) { c.Add(ctx, v, o.(metric.AddOption)) }
 		case 1:
-			c, _ := m.Float64Counter(name)
+			c, _ := m.Float64Counter(name, metric.WithUnit(unit), metric.WithDescription(desc))
 			h.rec = func(ctx context.Context, v int64, o metric.MeasurementOption) {
 				c.Add(ctx, float64(v), o.(metric.AddOption))
 			}
 		case 2:
-			c, _ := m.Int64UpDownCounter(name)
+			c, _ := m.Int64UpDownCounter(name, metric.WithUnit(unit), metric.WithDescription(desc))
 			h.rec = func(ctx context.Context, v int64, o metric.MeasurementOption) { c.Add(ctx, v, o.(metric.AddOption)) }
 		case 3:
-			c, _ := m.Float64UpDownCounter(name)
+			c, _ := m.Float64UpDownCounter(name, metric.WithUnit(unit), metric.WithDescription(desc))
 			h.rec = func(ctx context.Context, v int64, o metric.MeasurementOption) {
 				c.Add(ctx, float64(v), o.(metric.AddOption))
 			}
 		case 4:
-			c, _ := m.Int64Histogram(name)
+			c, _ := m.Int64Histogram(name, metric.WithUnit(unit), metric.WithDescription(desc))
 			h.rec = func(ctx context.Context, v int64, o metric.MeasurementOption) {
 				c.Record(ctx, v, o.(metric.RecordOption))
 			}
 		case 5:
-			c, _ := m.Float64Histogram(name)
+			c, _ := m.Float64Histogram(name, metric.WithUnit(unit), metric.WithDescription(desc))
 			h.rec = func(ctx context.Context, v int64, o metric.MeasurementOption) {
 				c.Record(ctx, float64(v), o.(metric.RecordOption))
 			}
 		case 6:
-			c, _ := m.Int64Gauge(name)
+			c, _ := m.Int64Gauge(name, metric.WithUnit(unit), metric.WithDescription(desc))
 			h.rec = func(ctx context.Context, v int64, o metric.MeasurementOption) {
 				c.Record(ctx, v, o.(metric.RecordOption))
 			}
 		default:
-			c, _ := m.Float64Gauge(name)
+			c, _ := m.Float64Gauge(name, metric.WithUnit(unit), metric.WithDescription(desc))
 			h.rec = func(ctx context.Context, v int64, o metric.MeasurementOption) {
 				c.Record(ctx, float64(v), o.(metric.RecordOption))
 			}
@@ -239,6 +243,10 @@ func runTrial(k *vf.Case) {
 		asyncs = append(asyncs, ah)
 		regs = append(regs, rh)
 		mu.Unlock()
+		if gr.Chance(1, 6) {
+			// a callback registered for no instrument at all: legal, pointless, and not to disturb the others
+			m.RegisterCallback(func(context.Context, metric.Observer) error { return nil })
+		}
 	}
 	createTracer := func(gr *vf.RNG) {
 		name := fmt.Sprintf("t%d", gr.Intn(30))
